@@ -134,7 +134,11 @@ pub struct Report {
     pub assumptions: Vec<String>,
     pub violations: Vec<Violation>,
     pub max_samples: usize,
+    /// occurrences per signature; only the first `MAX_STORED_PER_SIG` violation objects of a signature are kept
+    viol_counts: BTreeMap<String, u64>,
 }
+
+const MAX_STORED_PER_SIG: u64 = 8;
 
 pub fn hash_of<T: Hash + ?Sized>(t: &T) -> u64 {
     // FNV-1a based deterministic hasher (std's DefaultHasher::new() is also
@@ -177,6 +181,7 @@ impl Report {
             assumptions: vec![],
             violations: vec![],
             max_samples: 6,
+            viol_counts: BTreeMap::new(),
         }
     }
     pub fn elapsed_s(&self) -> f64 {
@@ -198,7 +203,15 @@ impl Report {
         }
     }
     pub fn violation(&mut self, v: Violation) {
-        self.violations.push(v);
+        let c = self.viol_counts.entry(v.sig_string()).or_insert(0);
+        *c += 1;
+        if *c <= MAX_STORED_PER_SIG {
+            self.violations.push(v);
+        }
+    }
+    /// Total number of violations reported so far (stored or only counted).
+    pub fn violation_total(&self) -> u64 {
+        self.viol_counts.values().sum()
     }
     pub fn set(&mut self, k: &str, v: Value) {
         self.extra.insert(k.to_string(), v);
@@ -228,7 +241,16 @@ impl Report {
                 }
             }
         }
-        self.violations.extend(o.violations);
+        for (k, n) in o.viol_counts {
+            *self.viol_counts.entry(k).or_insert(0) += n;
+        }
+        for v in o.violations {
+            // stored objects stay capped per signature
+            let have = self.violations.iter().filter(|x| x.sig == v.sig).count() as u64;
+            if have < MAX_STORED_PER_SIG {
+                self.violations.push(v);
+            }
+        }
     }
 
     /// Serialise counters and violations so that another engine's process can merge them.
@@ -289,6 +311,7 @@ impl Report {
         let findings = load_findings(&self.property);
         let mut known_hits: BTreeMap<String, (u64, String)> = BTreeMap::new();
         let mut unlisted: BTreeMap<String, (u64, Violation)> = BTreeMap::new();
+        let counts = std::mem::take(&mut self.viol_counts);
         for v in std::mem::take(&mut self.violations) {
             let mut hit = None;
             for f in &findings {
@@ -303,8 +326,10 @@ impl Report {
                     e.0 += 1;
                 }
                 None => {
-                    let e = unlisted.entry(v.sig_string()).or_insert((0, v.clone()));
-                    e.0 += 1;
+                    let key = v.sig_string();
+                    let total = counts.get(&key).copied().unwrap_or(1);
+                    let e = unlisted.entry(key).or_insert((0, v.clone()));
+                    e.0 = total.max(e.0 + 1);
                 }
             }
         }
